@@ -340,7 +340,7 @@ def run(ctx):
     tsec = {}
     t0 = time.time()
     # ---- (A) reuse on / off, small grids, native and forced
-    n_hist = 40 if quick else 400
+    n_hist = 40 if quick else 1200
     for k in range(n_hist):
         if ctx.out_of_time(0.35):
             break
@@ -354,7 +354,7 @@ def run(ctx):
     tsec["history"] = time.time() - t0
     t0 = time.time()
     # ---- (A) natively large grids
-    n_large = 2 if quick else 10
+    n_large = 2 if quick else 24
     for k in range(n_large):
         if ctx.out_of_time(0.6):
             break
@@ -378,7 +378,7 @@ def run(ctx):
     rng.shuffle(lvs)
     big = [x for x in lvs if x[2] >= 200]
     small = [x for x in lvs if x[2] < 200]
-    sel = (small[:40] + big[:4]) if quick else lvs + lvs
+    sel = (small[:40] + big[:4]) if quick else lvs * 5
     for d, lv, n in sel:
         if ctx.out_of_time(0.8):
             break
@@ -389,7 +389,7 @@ def run(ctx):
     tsec["size_uniform"] = time.time() - t0
     t0 = time.time()
     # ---- (B) size paths, bisection-tree grids incl. sizes around the constant
-    n_tree = 48 if quick else 400
+    n_tree = 48 if quick else 1500
     shapes = list(THRESHOLD_SHAPES)
     for k in range(n_tree):
         if ctx.out_of_time(0.97):
